@@ -407,6 +407,22 @@ func GenRequests(t *rapid.T, sh *Shape) []Request {
 			reqs = append(reqs, Request{Prop: "C02", API: api(), N: 1, Types: []string{ty}, Expect: "panic", Why: fmt.Sprintf("no field has type %s (a field has %s)", ty, x.typ), NT: true, Classes: []string{"near-miss-by-type"}})
 		}
 	}
+	// a function-local type with the name of the field's own (package-level) struct type: by name and by type
+	for _, x := range nameOK {
+		isStruct := false
+		for _, st := range sh.Structs {
+			isStruct = isStruct || st.Name == x.typ
+		}
+		if !isStruct || rapid.IntRange(0, 1).Draw(t, "localNamesake") == 1 {
+			continue
+		}
+		decl := "type " + x.typ + " struct{ A, B, C int64 }"
+		reqs = append(reqs, Request{Prop: "C02", API: api(), N: 1, ByName: true, Names: []string{x.name}, Types: []string{x.typ}, Expect: "panic",
+			Why: "the requested focus type is a function-local type named like the field's package-level type " + x.typ, NT: true, Classes: []string{"local-namesake-by-name"}, Extra: map[string]any{"localDecl": decl}})
+		reqs = append(reqs, Request{Prop: "C02", API: api(), N: 1, Types: []string{x.typ}, Expect: "panic",
+			Why: "no field has the function-local type named like the package-level type " + x.typ, NT: true, Classes: []string{"local-namesake-by-type"}, Extra: map[string]any{"localDecl": decl}})
+		break
+	}
 	if len(nameOK) > 0 {
 		// container type parameter *S
 		x := nameOK[rapid.IntRange(0, len(nameOK)-1).Draw(t, "ptrVictim")]
